@@ -11,4 +11,4 @@ META = {
 
 
 def main(argv):
-    run_pool_check("C03", META, "layout", argv, 700, 12000)
+    run_pool_check("C03", META, "layout", argv, 700, 30000)
